@@ -101,6 +101,14 @@ CLAIMS = {
         'note': 'as C02/C03/C01 (same models and ties); the correspondence compares tallies of the real crate across all 24 suit permutations and player orders and with the model\'s tallies.',
         'design_ref': 'DESIGN.md §6 C11',
     },
+    'C06': {
+        'text': 'C06_range: for every range whose combos are pairs of distinct cards with weights in the domain, showRange succeeds and parseRange of that text yields a range with the same lookup for '
+                'every combo - however the combos group into complete rank pairs, runs of adjacent rank pairs with equal weight, or leftovers; C06_token: the text of every token satisfying the parser\'s '
+                'own well-formedness conditions (every emitted and every parsed token) parses back to the identical token. Proved from the run/cover theorems (C17, C12) and the closed forms of the seven parser branches.',
+        'note': 'Lean kernel + standard axioms; the f32 text assumptions are the named hypotheses of WTextOk (== is equality on the domain, a weight other than 1 prints in the weight grammar, print-then-parse is the '
+                'identity, "" is not a number) - validated by the harness, not proved; domain = bit patterns 0x00000000..=0x3F800000 (-0.0, NaN excluded); model tied by the correspondence (the crate\'s own reparse == original on every generated range).',
+        'design_ref': 'DESIGN.md §6 C06',
+    },
     'C07': {
         'text': 'Theorem C07: for seven distinct cards the category given by the interval arms read from the source equals the rule-book category of the strongest '
                 'five-card hand (C07_intervals proved symbolically for all indexes 1..7462; combined with C01 and the numbering theorem).',
